@@ -144,7 +144,7 @@ def main(argv=None):
     rdir = os.path.join(ROOT, 'replays', prop)
     os.makedirs(rdir, exist_ok=True)
 
-    crashes, unsupported = [], []
+    crashes, unsupported, incomplete_optional = [], [], []
     obligations = {}        # full name -> record
     functions = []
     inlined, modular = set(), set()
@@ -160,7 +160,10 @@ def main(argv=None):
         inlined |= set(r['inlined'])
         modular |= set(r['modular'])
         for u in r['unsupported']:
-            unsupported.append({'contract': r['contract'], 'case': r['case'], 'what': u})
+            if ex.contracts[r['contract']].opts.get('optional_symbolic') and 'budget' in u:
+                incomplete_optional.append({'contract': r['contract'], 'case': r['case'], 'what': u})
+            else:
+                unsupported.append({'contract': r['contract'], 'case': r['case'], 'what': u})
         if r['paths'] == 0 and not r['unsupported']:
             crashes.append({'contract': r['contract'], 'case': r['case'], 'error': 'zero feasible paths (vacuous)'})
         for k, o in r['obligations'].items():
@@ -348,6 +351,7 @@ def main(argv=None):
             'bounded_standins': bounded + native_bounded,
             'missing_from_run': missing,
             'unsupported': unsupported, 'crashes': crashes,
+            'symbolic_attempt_incomplete': incomplete_optional,
             'known_findings_reported': known_reported,
             'crosscheck': {'functions': xc.get('functions'), 'inputs': xc.get('inputs'), 'agree': xc.get('agree'),
                            'disagreements': len(xc.get('disagreements', [])), 'skipped': xc.get('skipped'),
